@@ -6,6 +6,10 @@ HTLC_CLAUSES_C03 = ["C03_StateOrder", "C03_ClaimSound", "C03_ClaimComplete", "C0
 HTLC_CLAUSES_C04 = ["C04_Escrow", "C04_InOut", "C04_Current", "C04_Limit", "C04_Window", "C04_ScaleExact"]
 # the HTLC part of C13 (aggregated by the lead): clause names as they appear in CLAUSE-FAIL lines
 C13_CLAUSES_HTLC = ["C13_QueueSound", "C13_QueueComplete", "C13_OnceOnTime", "C13_NoHalt"]
+# antecedents the HTLC part of C13 must exercise (expiry processing of every kind, several per height,
+# claims in the last block before / in the block of the expiry, fast-forwarded empty blocks)
+C13_REQUIRED = ["refund_plain", "refund_in", "refund_out", "refund_many", "claim_last_block",
+                "claim_in_expiry_block", "skip"]
 
 # model <-> chain: height compression 50 (model lock k = real lock 50k, model block = 50 real blocks)
 HTLC_GEN_CFG = "compress=50,period=100,users=2,initbal=5"
